@@ -21,7 +21,7 @@ BOUNDS = {
     'quick': dict(structured='singles and 16 ordered pairs of message types (thorough: all 49), symbolic fields, data blob of '
                              'symbolic length < 2^64, ext lists 0..2 on the first message; one symbolic cut position anywhere',
                   raw='1..2 fully symbolic octets in-connection; contact phase 1..7 symbolic octets; every cut'),
-    'thorough': dict(structured='pairs and selected triples, ext lists 0..2', raw='up to 4 symbolic octets in-connection, 10 in the contact phase'),
+    'thorough': dict(structured='all 49 pairs and selected triples, ext lists 0..2 on the first message and 0..1 on later ones', raw='up to 4 symbolic octets in-connection, 10 in the contact phase'),
 }
 ASSUMPTIONS = [
     'the peer stream is read in exactly two chunks (one cut); each read is below CHUNK_SIZE',
@@ -31,6 +31,7 @@ ASSUMPTIONS = [
 REQUIRED_CLASSES = {'all': ['acted', 'partial']}
 QUICK_VALIDATE = 4
 MAX_PATHS = {'quick': 30000, 'thorough': 200000}
+CASE_SECONDS = {'quick': 300, 'thorough': 3000}
 
 TYPES = ['XFER_SEGMENT', 'XFER_ACK', 'XFER_REFUSE', 'KEEPALIVE', 'SESS_TERM', 'MSG_REJECT', 'SESS_INIT']
 
@@ -67,7 +68,7 @@ def sym_message(c, kind, ix, tier):
         ln = c.sym_int(p + 'dlen', 0, 2 ** 64 - 1, size=True)
         ext = []
         if bool((flags & 2) != 0):
-            nmax = 2 if (tier != 'quick' or ix == 0) else 1
+            nmax = 2 if ix == 0 else 1
             n = c.choose(nmax + 1, 'ext-count')
             for j in range(n):
                 ext.append(dict(flags=c.sym_int(p + 'ef%d' % j, 0, 255), type=1,
@@ -87,7 +88,7 @@ def sym_message(c, kind, ix, tier):
         return dict(kind=kind, reason=c.sym_int(p + 'reason', 1, 3), rejected=c.sym_int(p + 'rej', 0, 255))
     if kind == 'SESS_INIT':
         ext = []
-        n = c.choose(3 if (tier != 'quick' or ix == 0) else 2, 'sext-count')
+        n = c.choose(3 if ix == 0 else 2, 'sext-count')
         for j in range(n):
             ext.append(dict(flags=c.sym_int(p + 'ef%d' % j, 0, 255), type=0xFF,
                             value=c.sym_bytes(p + 'ev%d' % j, 10)))
